@@ -131,7 +131,7 @@ fn check_pair(rep: &Report, head_line: &str, h: &Head, cont: &str) {
 pub fn run_c15(tier: &str) -> i32 {
     let rep = Report::new("C15", tier);
     let thorough = rep.thorough();
-    let (l_line, l_head, l_cont, e2e1, e2e2) = if thorough { (5, 4, 4, 3, 2) } else { (4, 3, 3, 2, 2) };
+    let (l_line, l_head, l_cont, e2e1, e2e2) = if thorough { (5, 4, 4, 3, 2) } else { (4, 4, 3, 2, 2) };
     rep.set("token_alphabet", json!(TOK));
     rep.set("continuation_alphabet", json!(CTOK));
     rep.set("bounds", json!(format!("every line of <= {l_line} tokens; every (directive line of <= {l_head} tokens, next line of <= {l_cont} continuation tokens); end-to-end sources [l1 (<= {e2e1} tokens), l2 (<= {e2e2} tokens), END]")));
